@@ -930,13 +930,19 @@ where
     F: Fn(&essential_types::predicate::Node) -> bool,
 {
     let mut deferred = HashSet::new();
-    for (ix, node) in predicate.nodes.iter().enumerate() {
-        if is_deferred(node) {
-            deferred.insert(ix as u16);
-        }
-        if deferred.contains(&(ix as u16)) {
-            for child in predicate.node_edges(ix).expect("Already checked") {
-                deferred.insert(*child);
+    // Start from the nodes that are deferred themselves.
+    let mut to_visit: Vec<u16> = predicate
+        .nodes
+        .iter()
+        .enumerate()
+        .filter(|(_, node)| is_deferred(node))
+        .map(|(ix, _)| ix as u16)
+        .collect();
+    // Everything reachable from a deferred node is deferred, whatever the node numbering.
+    while let Some(ix) = to_visit.pop() {
+        if deferred.insert(ix) {
+            if let Some(children) = predicate.node_edges(ix as usize) {
+                to_visit.extend(children.iter().copied());
             }
         }
     }
